@@ -39,6 +39,8 @@ var c05Files = ref.Files{
 	"dright":        "r1\n##!> include plain\n",
 	"diamond":       "##!> include dleft\n##!=>\n##!> include dright\n",
 	"twice":         "##!> include plain\n##!=>\n##!> include plain\n",
+	"words.v2":      "foo\nbar\n", // a dot in the base name is not an extension
+	"shell-4.0":     "##!^ p+\nls\n",
 	"trailing":      "foo  \nselect \n",    // white space at the end of an entry is part of the entry, also on the last line
 	"trailingnonl":  "\n\nfoo\nselect\t ",  // ... and without a final newline, after leading blank lines
 	"trailingblank": "foo \nbar\n\n  \n\n", // blank lines at the end of the file
